@@ -28,13 +28,17 @@ END = 'echo "E $RIG_NAME $RIG_K $(date +%s%N)" >> "$RIG_LOG"\n'
 
 def behaviour_script(b):
     """b: dict(kind='exit', code) | dict(kind='signal', sig) | dict(kind='hold', code, hold_ms)
-    | dict(kind='sleep', ms, code)"""
+    | dict(kind='writer', code, period_ms, total_ms) | dict(kind='sleep', ms, code)"""
     if b["kind"] == "exit":
         return END + f"exit {b['code']}\n"
     if b["kind"] == "signal":
         return "ulimit -c 0\n" + END + f"kill -{b['sig']} $$\nsleep 2\nexit 3\n"
     if b["kind"] == "hold":      # a descendant keeps stdout/stderr open for hold_ms after the exit
         return END + f"sleep {b['hold_ms'] / 1000:.3f} &\nexit {b['code']}\n"
+    if b["kind"] == "writer":    # a descendant writes to stdout every period_ms for total_ms after the exit
+        n = b["total_ms"] // b["period_ms"]
+        return END + (f"( i=0; while [ $i -lt {n} ]; do echo tick; sleep {b['period_ms'] / 1000:.3f}; "
+                      f"i=$((i+1)); done ) &\nexit {b['code']}\n")
     if b["kind"] == "sleep":
         return f"sleep {b['ms'] / 1000:.3f}\n" + END + f"exit {b['code']}\n"
     raise ValueError(b)
